@@ -171,6 +171,10 @@ Examples:
 			recoveredResults, recoveryErr := searchRecovery.RecoverFromSearchFailure(query, nil, db)
 			if recoveryErr == nil && len(recoveredResults) > 0 {
 				results = recoveredResults
+				// The recovery strategies return every match: the limit still applies
+				if len(results) > cfg.MaxResults {
+					results = results[:cfg.MaxResults]
+				}
 			}
 		}
 
